@@ -13,7 +13,7 @@ totality only.
 import os
 import random
 
-from harness.common import MachineryError, run_tlc, SPEC, parallel, judge_traces
+from harness.common import deadline, MachineryError, run_tlc, SPEC, parallel, judge_traces
 from harness import tables, valtrace
 from harness.world import Node
 from harness.tables import walk
@@ -238,10 +238,11 @@ def record_eval(root, judge, desc, node_level=False):
     w = [SENTINEL]
     raised = ""
     try:
-        evaluate.tree(root, w)
-        if node_level:
-            for n in walk(root):
-                evaluate.node(n)
+        with deadline(20):
+            evaluate.tree(root, w)
+            if node_level:
+                for n in walk(root):
+                    evaluate.node(n)
     except Exception as e:  # noqa: BLE001
         raised = type(e).__name__
     intact = len(w) >= 1 and w[0] is SENTINEL
